@@ -193,7 +193,7 @@ func runEncoding(e *Enc, fn *ssa.Function, props []string) {
 	f.entryPtr = st
 	// parameters
 	for _, p := range fn.Params {
-		t := e.declare("p."+p.Name(), e.sortOf(p.Type()))
+		t := e.declare("p."+p.Name(), f.sortFor(p))
 		f.vals[p] = t
 		f.typeFacts(t, p.Type(), st)
 		e.inputs = append(e.inputs, t.S)
